@@ -129,8 +129,17 @@ def check_generators(ev, seen):
 
 
 # ------------------------------------------------------------------ 2. executable stack
-def check_execstack(ev, seen):
-    d = build_lib(Cfg("asm"), targets=("ascon", "ascon_static", "asconcrypt", "asconsum"))
+def check_execstack(ev, seen, tier="quick"):
+    # every .S file is compiled in every configuration (it preprocesses to nothing when its backend is not selected),
+    # so the ELF objects of forced-C-backend builds are "ELF objects produced from them" too
+    cfgs = [Cfg("asm"), Cfg("c32", 3, 3, 3)] if tier == "quick" else [Cfg("asm"), Cfg("c32", 3, 3, 3), Cfg("c64", 2, 1, 2), Cfg("dxor", 4, 4, 4), Cfg("generic"), Cfg("generic", 4, 2, 4, checker=True)]
+    for cfg in cfgs:
+        check_execstack_cfg(ev, seen, cfg)
+
+
+def check_execstack_cfg(ev, seen, cfg):
+    d = build_lib(cfg, targets=("ascon", "ascon_static", "asconcrypt", "asconsum"))
+    tagc = "" if cfg.backend == "asm" else " [%s build]" % cfg.name
     lib = os.path.join(d, "src", "libascon_static.a")
     rc, out = sh(["ar", "t", lib])
     sobjs = [o for o in out.split() if o.endswith(".S.o")]
@@ -145,8 +154,8 @@ def check_execstack(ev, seen):
         m = re.search(r"\.note\.GNU-stack\s+\S+\s+\S+\s+\S+\s+\S+\s+\S+\s+(\S*)", hdr)
         ev.classes["elf-object"] = ev.classes.get("elf-object", 0) + 1
         if not m:
-            record(ev, "execstack:object-without-note", {"kind": "elf", "object": o, "what": "no .note.GNU-stack section: the linker must assume an executable stack"},
-                   "object %s built from a .S file has no .note.GNU-stack section (forces an executable stack)" % o, seen)
+            record(ev, "execstack:object-without-note", {"kind": "elf", "object": o, "config": cfg.name, "what": "no .note.GNU-stack section: the linker must assume an executable stack"},
+                   "object %s built from a .S file has no .note.GNU-stack section (forces an executable stack)%s" % (o, tagc), seen)
         elif "X" in m.group(1):
             record(ev, "execstack:object-note-X", {"kind": "elf", "object": o}, "object %s requests an executable stack" % o, seen)
     shutil.rmtree(tmp, ignore_errors=True)
@@ -158,22 +167,23 @@ def check_execstack(ev, seen):
         m = re.search(r"GNU_STACK\s+\S+\s+\S+\s+\S+\s+\S+\s+\S+\s+(\S+)", out)
         ev.classes["elf-linked"] = ev.classes.get("elf-linked", 0) + 1
         if not m or "E" in m.group(1):
-            record(ev, "execstack:linked:" + os.path.basename(p), {"kind": "elf", "object": os.path.basename(p), "GNU_STACK": m.group(1) if m else None},
-                   "%s has GNU_STACK %s (executable stack)" % (os.path.basename(p), m.group(1) if m else "missing"), seen)
-    ev.samples.append({"_part": "executable stack", "objects": sobjs[:3], "linked": [os.path.basename(p) for p in linked]})
+            record(ev, "execstack:linked:" + os.path.basename(p), {"kind": "elf", "object": os.path.basename(p), "config": cfg.name, "GNU_STACK": m.group(1) if m else None},
+                   "%s has GNU_STACK %s (executable stack)%s" % (os.path.basename(p), m.group(1) if m else "missing", tagc), seen)
+    if cfg.backend == "asm":
+        ev.samples.append({"_part": "executable stack", "objects": sobjs[:3], "linked": [os.path.basename(p) for p in linked]})
 
 
 def run(tier):
     ev = Evidence(PROP, tier)
     ev.rule = ("(1) all generate-target command lines of tools/gen*/Makefile (parsed from the Makefiles) run and diffed against the checked-in files - exhaustive over the 18 files; "
-               "(2) readelf on every .S-derived object of the release archive and on libascon.so / asconcrypt / asconsum - exhaustive; "
+               "(2) readelf on every .S-derived object of the release archive and on libascon.so / asconcrypt / asconsum, in the assembly build and in forced-C-backend builds - exhaustive; "
                "(3)-(5) generated (state, first_round, operands, register contents) executions of every assembly routine, natively for x86-64 (trampoline) and i386 (freestanding -m32 "
                "program), by instruction-level interpretation of the preprocessed file text for the other targets; oracle = reference permutation through the backend's documented "
                "state layout, plus callee-saved registers / stack pointer / memory footprint. Non-trivial: executions with a non-zero state, distinct by (file, state hash, round).")
     ev.assumptions = ["interpreters in emu/ implement the instruction subsets these files use (cross-checked: every entry point must match the reference on the unchanged tree)"]
     seen = set()
     check_generators(ev, seen)
-    check_execstack(ev, seen)
+    check_execstack(ev, seen, tier)
     try:
         import c18_exec
         c18_exec.run(ev, tier, seen, record)
@@ -192,7 +202,7 @@ def replay(path):
     if obj.get("kind") in ("generator", "generator-build"):
         check_generators(ev, seen)
     elif obj.get("kind") == "elf":
-        check_execstack(ev, seen)
+        check_execstack(ev, seen, "thorough")
     else:
         import c18_exec
         return c18_exec.replay(path, obj)
